@@ -113,6 +113,7 @@ pub fn point(kind: P) {
 
 /// Result type of all harness tracked functions: a small value that owns a heap allocation.
 #[derive(Debug, salsa::SalsaValue)]
+#[cfg_attr(feature = "persist", derive(serde::Serialize, serde::Deserialize))]
 pub struct V {
     pub x: u8,
     heap: Box<[u8; 8]>,
@@ -159,6 +160,7 @@ impl Eq for V {}
 /// and the same hash bucket chain, so that slot reuse and hash collisions are the common case
 /// and do not depend on the number of cores.
 #[derive(Debug, Clone, salsa::SalsaValue)]
+#[cfg_attr(feature = "persist", derive(serde::Serialize, serde::Deserialize))]
 pub struct D(pub u8);
 
 impl PartialEq for D {
@@ -177,4 +179,5 @@ impl Hash for D {
 
 /// Identity data with an honest hash (used where distinct shards / buckets are wanted).
 #[derive(Debug, Clone, PartialEq, Eq, Hash, salsa::SalsaValue)]
+#[cfg_attr(feature = "persist", derive(serde::Serialize, serde::Deserialize))]
 pub struct DH(pub u8);
